@@ -6,10 +6,14 @@ package main
 // compared with the model's accept / refuse verdict (type confusion at every position).
 
 import (
+	"bytes"
 	"crypto/sha256"
 	"encoding/json"
 	"fmt"
 	"math/rand"
+	"os"
+	"os/exec"
+	"runtime/debug"
 	"strings"
 	"time"
 
@@ -89,7 +93,9 @@ func entryPoints(cfg protocol.Protocol) []entryPoint {
 			return jwsutil.VerifySignature(&k, []byte("0123456789012345678901234567890123456789012345678901234567890123"), []byte("msg"))
 		}},
 		{"canonicalizer.MarshalCanonical", func(in []byte) error { _, e := canonicalizer.MarshalCanonical(in); return e }},
-		{"hashing.IsValidModelMultihash", func(in []byte) error { return hashing.IsValidModelMultihash(map[string]interface{}{"a": 1}, string(in)) }},
+		{"hashing.IsValidModelMultihash", func(in []byte) error {
+			return hashing.IsValidModelMultihash(map[string]interface{}{"a": 1}, string(in))
+		}},
 		{"hashing.GetMultihashCode", func(in []byte) error { _, e := hashing.GetMultihashCode(string(in)); return e }},
 		{"commitment.GetCommitmentFromRevealValue", func(in []byte) error { _, e := commitment.GetCommitmentFromRevealValue(string(in)); return e }},
 		{"patch.FromBytes+Validate+Apply", func(in []byte) error {
@@ -150,8 +156,8 @@ func corruptions(v interface{}, r *rand.Rand, limit int) []interface{} {
 		paths = append(paths, append([]interface{}{}, path...))
 		switch t := x.(type) {
 		case map[string]interface{}:
-			for k, e := range t {
-				walk(e, append(path, k))
+			for _, k := range sortedKeysOf(t) {
+				walk(t[k], append(path, k))
 			}
 		case []interface{}:
 			for i, e := range t {
@@ -245,7 +251,7 @@ func genC19(seed int64, tier string) []caseOut {
 	var out []caseOut
 	record := func(stream, entry string, in []byte, class int, detail string) {
 		h := sha256.Sum256(append([]byte(entry), in...))
-		rec := map[string]interface{}{"entry_point": entry, "class": []string{"ok", "err", "panic", "timeout"}[class], "input": string(in)}
+		rec := map[string]interface{}{"entry_point": entry, "class": []string{"ok", "err", "panic", "timeout", "process-died"}[class], "input": string(in)}
 		if len(in) > 600 {
 			rec["input"] = string(in[:600]) + fmt.Sprintf("...(%d bytes)", len(in))
 		}
@@ -346,6 +352,12 @@ func genC19(seed int64, tier string) []caseOut {
 	for _, p := range hostilePatches() {
 		runAll("hostile-patch", []byte(p))
 	}
+	// 3b. patch sequences, each in a child process (a fatal runtime error must not take the run down)
+	for _, seq := range patchSequences(r, 0) {
+		class, detail := runChildSeq(seq)
+		in, _ := json.Marshal(seq)
+		record("patch-sequence-child-process", "FromBytes+Validate+ApplyPatches+Marshal", in, class, detail)
+	}
 	// 4. DIDs
 	for _, dstr := range []string{"", ":", "::", "did:ion", "did:ion:", "did:ion::", "did:ion:a", "did:ion:a:", "did:ion:a:b", "did:ion:a:e30", "did:ion:a:bnVsbA", "did:ion:a:W10",
 		"did:ns:did:ns:x", "did:ns:", "x:did:ns:y:z", "did:ion:" + strings.Repeat("a:", 2000), "did:ion:a:" + b64([]byte(`{"suffixData":5}`)),
@@ -358,6 +370,123 @@ func genC19(seed int64, tier string) []caseOut {
 		`{"kty":"RSA","n":"AA","e":"AQAB"}`, `{"kty":"oct","k":"AA"}`, `{"kty":5}`, `{"kty":"EC","crv":"P-256","x":5}`, `{"kty":"EC","crv":"P-999","x":"AA","y":"AA"}`,
 		`{"kty":"EC","crv":"P-256","x":"*","y":"*"}`, `{"kty":"EC","crv":"secp256k1","x":"AA","y":"AA","d":"AA"}`} {
 		runAll("jwk", []byte(k))
+	}
+	return out
+}
+
+// ---- patch sequences in a child process ----
+// A fatal runtime error (stack exhaustion while serialising a cyclic document, out of memory)
+// cannot be recovered: the sequences most likely to cause one run in a child process with a
+// small stack limit; class 4 = the process died.
+
+type patchSeq struct {
+	Doc     string   `json:"doc"`
+	Patches []string `json:"patches"`
+}
+
+func childPatches() {
+	debug.SetMaxStack(48 << 20)
+	var in patchSeq
+	if err := json.NewDecoder(os.Stdin).Decode(&in); err != nil {
+		fmt.Println("class=1")
+		return
+	}
+	class, _ := guarded(func() error {
+		doc, e := document.FromBytes([]byte(in.Doc))
+		if e != nil {
+			return e
+		}
+		var ps []patch.Patch
+		for _, pb := range in.Patches {
+			p, e := patch.FromBytes([]byte(pb))
+			if e != nil {
+				return e
+			}
+			if e := patchvalidator.Validate(p); e != nil {
+				return e
+			}
+			ps = append(ps, p)
+		}
+		res, e := doccomposer.New().ApplyPatches(doc, ps)
+		if e != nil {
+			return e
+		}
+		_, e = json.Marshal(res)
+		return e
+	})
+	fmt.Printf("class=%d\n", class)
+}
+
+func runChildSeq(seq patchSeq) (int, string) {
+	in, _ := json.Marshal(seq)
+	cmd := exec.Command(os.Args[0], "-child-patches")
+	cmd.Stdin = bytes.NewReader(in)
+	var outb, errb bytes.Buffer
+	cmd.Stdout, cmd.Stderr = &outb, &errb
+	if err := cmd.Start(); err != nil {
+		return 1, "cannot start child"
+	}
+	done := make(chan error, 1)
+	go func() { done <- cmd.Wait() }()
+	select {
+	case <-done:
+	case <-time.After(30 * time.Second):
+		cmd.Process.Kill()
+		return 3, "timeout"
+	}
+	for c := 0; c <= 3; c++ {
+		if strings.Contains(outb.String(), fmt.Sprintf("class=%d", c)) {
+			return c, ""
+		}
+	}
+	first := strings.SplitN(errb.String(), "\n", 3)
+	return 4, "process died: " + strings.Join(first[:min(2, len(first))], " | ")
+}
+
+func patchSequences(r *rand.Rand, n int) []patchSeq {
+	doc := `{"a":[{}],"m":{"k":{}},"a/b":{"c":{}},"t~":{},"o":{"0":{},"1":{}},"alsoKnownAs":["https://aka.example/1"]}`
+	jp := func(ops ...string) string { return `{"action":"ietf-json-patch","patches":[` + strings.Join(ops, ",") + `]}` }
+	cp := func(from, path string) string { return fmt.Sprintf(`{"op":"copy","from":%q,"path":%q}`, from, path) }
+	mv := func(from, path string) string { return fmt.Sprintf(`{"op":"move","from":%q,"path":%q}`, from, path) }
+	var out []patchSeq
+	add := func(ps ...string) { out = append(out, patchSeq{doc, ps}) }
+	// copy / move into the operation's own source, in every spelling of the shared prefix
+	zero := []string{"0", "+0", "-0", "00", "000", "-00", "+00"}
+	for _, z := range zero {
+		add(jp(cp("/a/0", "/a/"+z+"/x")))
+		add(jp(cp("/a/"+z, "/a/0/x")))
+		add(jp(cp("/a/"+z, "/a/"+zero[r.Intn(len(zero))]+"/x/y")))
+		add(jp(`{"op":"add","path":"/a/0/x","value":{}}`), jp(cp("/a/"+z, "/a/0/x/y")))
+		add(jp(mv("/a/"+z, "/a/0/x")))
+		add(jp(cp("/o/"+z, "/o/0/x")), jp(cp("/o/0", "/o/"+z+"/x")))
+	}
+	for _, pr := range [][2]string{{"/a", "/a/0/x"}, {"/a", "/a/-"}, {"/m", "/m/k/x"}, {"/m/k", "/m/k/x"}, {"/a~1b", "/a~1b/c/d"}, {"/a~1b/c", "/a~1b/c/d"}, {"/t~0", "/t~0/x"},
+		{"", "/x"}, {"/", "/x"}, {"/m", "/m"}, {"/m", "/m/"}, {"/m/", "/m//x"}, {"/m", "//m/x"}, {"m", "/m/k/x"}, {"/m", "m/k/x"}, {"/M", "/m/k"}, {"/m/k", "/m"}} {
+		add(jp(cp(pr[0], pr[1])))
+		add(jp(mv(pr[0], pr[1])))
+		add(jp(cp(pr[0], pr[1]), cp(pr[0], pr[1])))
+	}
+	// two-step chains: a copy that is fine, then one through the copy
+	add(jp(cp("/m", "/m2"), cp("/m2", "/m/k/x"), cp("/m", "/m2/k/y")))
+	add(jp(cp("/a", "/a2")), jp(cp("/a2/0", "/a/0/x"), cp("/a/0", "/a2/0/y")))
+	// values of unexpected JSON type put where a list action will look later
+	for _, v := range []string{`{"x":1}`, `[["y"]]`, `[{"x":1},["y"],null,5]`, `"s"`, `5`, `null`, `[null]`} {
+		for _, member := range []string{"alsoKnownAs", "publicKey", "service"} {
+			if member != "alsoKnownAs" {
+				continue // the other two are protected from ietf-json-patch
+			}
+			set := jp(fmt.Sprintf(`{"op":"add","path":"/%s","value":%s}`, member, v))
+			add(set, `{"action":"remove-also-known-as","uris":["https://aka.example/1"]}`)
+			add(set, `{"action":"add-also-known-as","uris":["https://aka.example/2"]}`)
+			add(set, `{"action":"remove-also-known-as","uris":["https://aka.example/1"]}`, `{"action":"add-also-known-as","uris":["https://aka.example/1"]}`)
+		}
+	}
+	for _, v := range []string{`{"x":1}`, `[5]`, `"s"`, `null`} {
+		// members the key / service actions read, replaced through a JSON patch on a parent that is not protected
+		add(jp(fmt.Sprintf(`{"op":"add","path":"/publicKeyX","value":%s}`, v)), `{"action":"remove-public-keys","ids":["k1"]}`, `{"action":"remove-services","ids":["s1"]}`)
+	}
+	for len(out) < n {
+		out = append(out, out[r.Intn(len(out))])
 	}
 	return out
 }
